@@ -28,11 +28,14 @@ AcceptHasProgram == R.accepted => ~R.job_program_none
 RuleRejected == R.rule # "" => ~R.accepted
 AcceptedRuns == R.accepted => R.fault # "internal"
 LoaderNeverRaises == R.accepted => ~R.run_raised
+\* malformed: instructions of the accepted program that lack an operand the VM dereferences (POP/PUSH/MOVE/...)
+AcceptedWellFormed == R.accepted => R.malformed = 0
 
-Clauses == <<"Finishes", "NoCrash", "TwoOutcomes", "AcceptHasProgram", "RuleRejected", "LoaderNeverRaises", "AcceptedRuns">>
+Clauses == <<"Finishes", "NoCrash", "TwoOutcomes", "AcceptHasProgram", "RuleRejected", "LoaderNeverRaises", "AcceptedWellFormed", "AcceptedRuns">>
 Holds(c) == CASE c = "Finishes" -> Finishes [] c = "NoCrash" -> NoCrash [] c = "TwoOutcomes" -> TwoOutcomes
               [] c = "AcceptHasProgram" -> AcceptHasProgram [] c = "RuleRejected" -> RuleRejected
-              [] c = "LoaderNeverRaises" -> LoaderNeverRaises [] c = "AcceptedRuns" -> AcceptedRuns
+              [] c = "LoaderNeverRaises" -> LoaderNeverRaises [] c = "AcceptedWellFormed" -> AcceptedWellFormed
+              [] c = "AcceptedRuns" -> AcceptedRuns
 FirstBroken == IF \E k \in DOMAIN Clauses : ~Holds(Clauses[k])
                THEN Clauses[CHOOSE k \in DOMAIN Clauses : ~Holds(Clauses[k]) /\ \A j \in 1..k - 1 : Holds(Clauses[j])] ELSE ""
 Init == rec \in 1..Len(Batch) /\ st = "run"
